@@ -783,7 +783,7 @@ const INSTANCES: &[&str] = &[
     "a - b - c", "a / b * c", "a ^ b ^ c", "a + b * c - d", "a OR b OR c AND d", "x IN (1, 2) = TRUE", "x + 1 IN (1)",
     "NOT x IN (1)", "count(DISTINCT x)", "count(*)", "array[1, 2][1]", "array[]", "f()", "f(a, b + 1, (c))", "(a, b)",
     "(a, b + 1, c)", "CASE WHEN a THEN b ELSE c END", "CASE WHEN a = 1 THEN b WHEN c THEN d ELSE e + 1 END * 2",
-    "EXTRACT(hour FROM ts)", "EXTRACT(EPOCH FROM a - b) / 60", "x::nosuchtype", "a.1", "1.a", "(a + b).c", "a :: 1",
+    "EXTRACT(hour FROM ts)", "EXTRACT(É FROM x)", "EXTRACT(Ärger FROM x) + 1", "EXTRACT(EPOCH FROM a - b) / 60", "x::nosuchtype", "a.1", "1.a", "(a + b).c", "a :: 1",
     "* ", "count(*) + 1", "a % b", "% a", "! a", "a !", "a IN 1", "a IN ()", "a IN (1,)", "(", "()", "(,", "(a,", "(a,)",
     "(a b)", "(a +)", "(a + , b)", "f(", "f(a", "f(a,", "f(a b)", "a[", "a[1", "a[]", "CASE", "CASE WHEN", "CASE WHEN a",
     "CASE WHEN a THEN b", "CASE WHEN a THEN b ELSE c", "CASE a", "EXTRACT", "EXTRACT(", "EXTRACT(1 FROM a)", "EXTRACT(h a)",
